@@ -80,7 +80,21 @@ def origin_positions(origin):
     return acc
 
 
-def check_map(comp, ref, relation, main_prog, files_of_macros, main_abs, source_for_report):
+def jump_statement_pairs(ref, tau_chains):
+    """Relate Jump ops to the jump / continue / break / break_loop / return-in-macro statements they were written for:
+    where a transition passes as many statement-made silent steps on the reference side as Jump ops on the machine
+    side, they correspond in order (no jump was eliminated and none is synthetic on that stretch)."""
+    pairs = set()
+    for left, right in tau_chains or ():
+        stmts = [n for n in left if isinstance(ref.origin.get(n), (A.Jump, A.Ctrl))]
+        jumps = [n for n in right if n[0] == "m"]
+        if stmts and len(stmts) == len(jumps):
+            for a, b in zip(stmts, jumps):
+                pairs.add((a, b))
+    return pairs
+
+
+def check_map(comp, ref, relation, main_prog, files_of_macros, main_abs, source_for_report, tau_chains=None):
     """All C08 obligations for one compilation. files_of_macros: macro name -> relative file (None = main)."""
     viols = []
     sm = comp.source_map
@@ -103,6 +117,19 @@ def check_map(comp, ref, relation, main_prog, files_of_macros, main_abs, source_
     for a, b in relation:
         if b[0] == "m":
             refs_of.setdefault(b, set()).add(a)
+    # every simple statement written in a routine registers (at least) one op number at its own position, whether or not
+    # that op survives jump elimination: the map must hold an entry with exactly that position
+    direct_positions = {(m_.line, m_.column) for k_, m_ in sm._mappings.items()}
+    for r in main_prog.routines:
+        if r.body is None:
+            continue
+        for st in A.walk_stmts(r.body):
+            if isinstance(st, (A.Op, A.Assign, A.Jump, A.Call, A.Ctrl, A.With)) and st.pos is not None:
+                if tuple(st.pos) not in direct_positions:
+                    viols.append({"kind": "statement-without-entry-at-its-position", "detail": {
+                        **detail0, "statement": repr(st)[:80], "position": list(st.pos)}})
+    if viols:
+        return viols
     routine_positions = [all_positions(r.body) if r.body is not None else set() for r in main_prog.routines]
     macro_positions = {m.name: all_positions(m.body) for m in ref_macros(ref)}
     exp_ops = {}   # expansion id -> list of (offset, mapping)
@@ -311,7 +338,7 @@ def run_prog_case(cid, prog):
         if comp.source_map.get_op_line_and_col__direct(op.offset) is not None:
             OUTSIDE_DIRECT[op.offset] = True
     files = {m.name: None for m in prog.macros}
-    viols = check_map(comp, ref, ctx["relation"], prog, files, None, text)
+    viols = check_map(comp, ref, ctx["relation"], prog, files, None, text, ctx.get("tau_chains"))
     out = {"outcome": "violation" if viols else "ok", "states": res["states"], "transitions": res["transitions"],
            "nt": cid if len(comp.routine_ops[0]) > 1 else None}
     if viols:
@@ -339,8 +366,9 @@ def run_macro_case(cid, spec):
     m, entries = lts.machine(comp.routine_ops, jump_index_last=True)
     relation = set()
     states = transitions = 0
+    chains = []
     for a, b in zip(ref.entries, entries):
-        ok, st, tr, rel, mm = lts.product(ref.lts, a, m, b)
+        ok, st, tr, rel, mm = lts.product(ref.lts, a, m, b, tau_chains=chains)
         states += st
         transitions += tr
         relation |= rel
@@ -351,7 +379,7 @@ def run_macro_case(cid, spec):
         if comp.source_map.get_op_line_and_col__direct(op.offset) is not None:
             OUTSIDE_DIRECT[op.offset] = True
     fmap = {mm_.name: mm_.file for mm_ in macros}
-    viols = check_map(comp, ref, relation, main, fmap, main_path, texts)
+    viols = check_map(comp, ref, relation, main, fmap, main_path, texts, chains)
     out = {"outcome": "violation" if viols else "ok", "states": states, "transitions": transitions, "nt": cid}
     if viols:
         out["viol"] = viols
